@@ -417,14 +417,23 @@ func (p *proxyConn) handle() error {
 
 func (p *proxyConn) writeErrorResponse(req *http.Request, err error) error {
 	res := maybeConnectErrorResponse(err)
+	var challenge []string
 	if res == nil {
 		res = p.errorResponse(req, err)
+		// The challenge of a locally generated 407 is addressed to our client: keep it across
+		// the response modifiers (hop-by-hop removal would strip it).
+		if res.StatusCode == http.StatusProxyAuthRequired {
+			challenge = res.Header.Values("Proxy-Authenticate")
+		}
 	}
 	if err := p.modifyResponse(res); err != nil {
 		log.Error(req.Context(), "error modifying error response", "error", err)
 		if !p.WithoutWarning {
 			proxyutil.Warning(res.Header, err)
 		}
+	}
+	if len(challenge) > 0 && len(res.Header.Values("Proxy-Authenticate")) == 0 {
+		res.Header["Proxy-Authenticate"] = challenge
 	}
 	return p.writeResponse(res)
 }
